@@ -126,6 +126,7 @@ type Exec struct {
 	nextObj   int
 	onceDone  map[*Value]bool
 	funcsSeen map[string]bool
+	fnSeen    map[*ssa.Function]bool
 	sentinels map[*ssa.Global]Value
 
 	ss          *schedState
